@@ -73,6 +73,10 @@ func (u *sigUniverse) entry(rng *rand.Rand, decodableOnly bool) (t util.EFIGUID,
 	case k == 7:
 		return gSHA256, o, pick(rng, u.wrong), "sha256-wrong-size"
 	case k == 8:
+		if rng.Intn(2) == 0 {
+			// EFI_CERT_X509_SHA256: a 32-byte hash and a 16-byte time of revocation
+			return signature.CERT_X509_SHA256_GUID, o, append(append([]byte{}, pick(rng, u.hashes)...), make([]byte, 16)...), "x509-sha256"
+		}
 		return signature.CERT_SHA1_GUID, o, randBytes(rng, 20)[:20], "sha1-undecodable"
 	default:
 		// one fixed unknown type per universe, so that histories return to it
